@@ -444,6 +444,21 @@ Definition validate_units (f3 f4 : bool) (S : uschema) (T : utag) (ext : str) : 
        | cs => check_units_valid f3 f4 S T cs ext
        end.
 
+(* HedValidator._validate_individual_tags_in_hed_string, the part that concerns unit-class tags:
+     validation_issues = []
+     for group in hed_string_obj.get_all_groups():
+         for hed_tag in group.tags():
+             ...
+             validation_issues += self.validate_units(hed_tag)
+   The loop carries no other state than the list of issues collected so far.  A string is given as the list of
+   its unit-class tags (node, extension) in the order the loop visits them. *)
+Definition validate_tags_loop (f3 f4 : bool) (S : uschema) (acc : list code) (tags : list (utag * str))
+  : list code :=
+  fold_left (fun issues te => issues ++ validate_units f3 f4 S (fst te) (snd te)) tags acc.
+
+Definition validate_units_string (f3 f4 : bool) (S : uschema) (tags : list (utag * str)) : list code :=
+  validate_tags_loop f3 f4 S [] tags.
+
 (* ------------------------------------------------------------------ candidates for a text (used by the spec) *)
 
 Definition tag_entries (S : uschema) (cs : list classdef) : list entry :=
